@@ -50,43 +50,55 @@ func (c17) Gen(tier string, seed int64, emit func([]Ev)) {
 		n = 12000
 	}
 	for i := 0; i < n; i++ {
-		steps := 2 + r.Intn(9)
-		// predicate thresholds (0 = never) in bytes
-		pred := Ev{"done": 0, "fail": 0}
-		switch r.Intn(5) {
+		emit(c17History(r))
+	}
+}
+
+// c17History draws one accumulator history from r (which may be driven by a fuzzer's bytes).
+func c17History(r *rand.Rand) []Ev {
+	steps := 2 + r.Intn(9)
+	// predicate thresholds (0 = never) in bytes
+	pred := Ev{"done": 0, "fail": 0}
+	switch r.Intn(5) {
+	case 0:
+	case 1, 2:
+		pred["done"] = 1 + r.Intn(120)
+	case 3:
+		pred["fail"] = 1 + r.Intn(120)
+	case 4:
+		pred["done"] = 1 + r.Intn(120)
+		pred["fail"] = 1 + r.Intn(120)
+	}
+	var h []Ev
+	for s := 0; s < steps; s++ {
+		if r.Intn(12) == 0 {
+			h = append(h, Ev{"op": "reset", "pred": pred})
+			continue
+		}
+		pusi := r.Intn(3) == 0 || (s == 0 && r.Intn(4) != 0)
+		haspay := r.Intn(6) != 0
+		afLen := 140 + r.Intn(43) // payloads of 1..43 bytes keep the trace small
+		switch r.Intn(10) {
 		case 0:
-		case 1, 2:
-			pred["done"] = 1 + r.Intn(120)
-		case 3:
-			pred["fail"] = 1 + r.Intn(120)
-		case 4:
-			pred["done"] = 1 + r.Intn(120)
-			pred["fail"] = 1 + r.Intn(120)
+			afLen = -1 // payload only: 184 bytes
+		case 1:
+			afLen = 183 // adaptation field fills the packet: empty payload
+		case 2:
+			afLen = 0
 		}
-		var h []Ev
-		for s := 0; s < steps; s++ {
-			if r.Intn(12) == 0 {
-				h = append(h, Ev{"op": "reset", "pred": pred})
-				continue
-			}
-			pusi := r.Intn(3) == 0 || (s == 0 && r.Intn(4) != 0)
-			haspay := r.Intn(6) != 0
-			afLen := 140 + r.Intn(43) // payloads of 1..43 bytes keep the trace small
-			switch r.Intn(10) {
-			case 0:
-				afLen = -1 // payload only: 184 bytes
-			case 1:
-				afLen = 183 // adaptation field fills the packet: empty payload
-			case 2:
-				afLen = 0
-			}
-			if !haspay {
-				afLen = 183
-			}
-			p := mkPkt(r, 0x100, s, pusi, haspay, afLen)
-			h = append(h, Ev{"op": "write", "pkt": B(p[:]), "pred": pred})
+		if !haspay {
+			afLen = 183
 		}
-		emit(h)
+		p := mkPkt(r, 0x100, s, pusi, haspay, afLen)
+		h = append(h, Ev{"op": "write", "pkt": B(p[:]), "pred": pred})
+	}
+	return h
+}
+
+// GenRows: the fuzzer's bytes drive the history generator (structured fuzzing).
+func (c17) GenRows(rows []Ev, tier string, seed int64, emit func([]Ev)) {
+	for _, row := range rows {
+		emit(c17History(rand.New(&byteSrc{b: GB(row["in"])})))
 	}
 }
 
